@@ -232,16 +232,19 @@ type c04Claim struct {
 }
 
 type c04Tok struct {
-	Raw     *string    `json:"raw,omitempty"`     // literal credential instead of a built JWT (never a valid token: keys are per process)
-	Signer  string     `json:"signer,omitempty"`  // key name
-	Alg     string     `json:"alg,omitempty"`     // value of the "alg" header; "(absent)" omits the member
-	SignAlg string     `json:"signalg,omitempty"` // algorithm really used to produce the signature; "" = Alg
-	Sig     string     `json:"sig,omitempty"`     // ok | empty | flip | zeros | payload-changed | hmac-pub
-	Kid     string     `json:"kid,omitempty"`     // ssh | jwk | none | junk | of:<key name>
-	Hdr     []c04Claim `json:"hdr,omitempty"`     // additional protected header members
-	Claims  []c04Claim `json:"claims,omitempty"`
-	Ser     string     `json:"ser,omitempty"`  // compact | flat | general | general+junk
-	Tail    string     `json:"tail,omitempty"` // damage to the encoded signature: text appended, or "---" = that many characters cut
+	Raw     *string `json:"raw,omitempty"`     // literal credential instead of a built JWT (never a valid token: keys are per process)
+	Signer  string  `json:"signer,omitempty"`  // key name
+	Alg     string  `json:"alg,omitempty"`     // value of the "alg" header; "(absent)" omits the member
+	SignAlg string  `json:"signalg,omitempty"` // algorithm really used to produce the signature; "" = Alg
+	Sig     string  `json:"sig,omitempty"`     // ok | family | empty | flip | zeros | payload-changed | hmac-pub
+	// family = "signed accordingly": the key's own primitive (ECDSA / RSA PKCS1v15 or PSS / Ed25519) with the hash the header's alg names,
+	// i.e. the signature a verifier that does not enforce the alg <-> key fit would check
+	Width  string     `json:"width,omitempty"` // ECDSA only: "" = r||s as wide as the curve, "alg" = as wide as the header's alg prescribes (if r, s fit)
+	Kid    string     `json:"kid,omitempty"`   // ssh | jwk | none | junk | of:<key name>
+	Hdr    []c04Claim `json:"hdr,omitempty"`   // additional protected header members
+	Claims []c04Claim `json:"claims,omitempty"`
+	Ser    string     `json:"ser,omitempty"`  // compact | flat | general | general+junk
+	Tail   string     `json:"tail,omitempty"` // damage to the encoded signature: text appended, or "---" = that many characters cut
 }
 
 func c04ClaimJSON(c c04Claim, now int64) string {
@@ -344,6 +347,37 @@ func c04Sign(k *c04Key, alg string, input []byte) ([]byte, error) {
 	return nil, fmt.Errorf("unsupported key type %T", k.Priv)
 }
 
+// c04SignFamily signs with the key's own primitive and the hash that alg names (SHA-512 when alg names none), whatever alg is.
+func c04SignFamily(k *c04Key, alg, width string, input []byte) ([]byte, error) {
+	ch, newH := c04Hash(alg)
+	hh := newH()
+	hh.Write(input)
+	digest := hh.Sum(nil)
+	switch p := k.Priv.(type) {
+	case *ecdsa.PrivateKey:
+		r, s, err := ecdsa.Sign(rand.Reader, p, digest)
+		if err != nil {
+			return nil, err
+		}
+		size := (p.Curve.Params().BitSize + 7) / 8
+		if w, ok := map[string]int{"ES256": 32, "ES384": 48, "ES512": 66}[alg]; ok && width == "alg" && 8*w >= r.BitLen() && 8*w >= s.BitLen() {
+			size = w
+		}
+		out := make([]byte, 2*size)
+		r.FillBytes(out[:size])
+		s.FillBytes(out[size:])
+		return out, nil
+	case *rsa.PrivateKey:
+		if strings.HasPrefix(alg, "PS") {
+			return rsa.SignPSS(rand.Reader, p, ch, digest, &rsa.PSSOptions{SaltLength: rsa.PSSSaltLengthEqualsHash})
+		}
+		return rsa.SignPKCS1v15(rand.Reader, p, ch, digest)
+	case ed25519.PrivateKey:
+		return ed25519.Sign(p, input), nil
+	}
+	return nil, fmt.Errorf("unsupported key type %T", k.Priv)
+}
+
 // c04NaturalAlg is the algorithm an honest client would pick for the key kind.
 func c04NaturalAlg(kind string) string {
 	switch kind {
@@ -416,12 +450,21 @@ func c04Build(keys map[string]*c04Key, tk c04Tok, now int64) (string, error) {
 		m := hmac.New(newH, k.DER)
 		m.Write(input)
 		sig = m.Sum(nil)
+	case "family":
+		var err error
+		if sig, err = c04SignFamily(k, tk.Alg, tk.Width, input); err != nil {
+			return "", err
+		}
 	default: // ok | flip | payload-changed
 		var err error
 		if !c04CanSign(k.Kind, signAlg) {
 			signAlg = c04NaturalAlg(k.Kind)
 		}
-		sig, err = c04Sign(k, signAlg, input)
+		if tk.Width != "" && c04CanSign(k.Kind, signAlg) {
+			sig, err = c04SignFamily(k, signAlg, tk.Width, input)
+		} else {
+			sig, err = c04Sign(k, signAlg, input)
+		}
 		if err != nil && k.Kind == "rsa" && !k.Listed {
 			// PS512 does not fit the 1024-bit modulus of the deliberately weak key; such a token is invalid whatever its signature
 			sig, err = c04Sign(k, "RS512", input)
@@ -530,7 +573,7 @@ func c04Ref(tk c04Tok, credLen int, now int64) (verdict, reason string) {
 	}
 	kind := c04KindOf[tk.Signer]
 	// the signature must be a real signature, by that key, with the algorithm named in the header, over the bytes sent
-	if tk.Sig != "ok" {
+	if tk.Sig != "ok" && tk.Sig != "family" {
 		return c04Invalid, "sig:" + tk.Sig
 	}
 	if tk.Tail != "" {
@@ -540,14 +583,21 @@ func c04Ref(tk c04Tok, credLen int, now int64) (verdict, reason string) {
 		return c04Invalid, "alg-lie"
 	}
 	if !c04CanSign(kind, tk.Alg) {
-		return c04Invalid, "alg:" + tk.Alg // none, HS*, absent, or another key family
+		switch tk.Alg {
+		case "ES256", "ES384", "ES512", "EdDSA", "RS256", "RS384", "RS512", "PS256", "PS384", "PS512":
+			return c04Invalid, "alg-key-mismatch:" + kind + "/" + tk.Alg // an algorithm of another key family
+		}
+		return c04Invalid, "alg:" + tk.Alg // none, HS*, absent, unknown
 	}
 	// "Signatures based on RSA keys may use the RS512 or PS512 algorithms only"
 	if kind == "rsa" && tk.Alg != "RS512" && tk.Alg != "PS512" {
 		return c04Invalid, "rsa-alg:" + tk.Alg
 	}
+	// RFC 7518 section 3.4 defines ES256 / ES384 / ES512 as ECDSA with P-256 / P-384 / P-521 and the matching hash: a signature by
+	// a key on another curve is not a signature of the algorithm the header names. The node enforces this itself
+	// (tokenV2.signatureAlgorithmFitsKey -> crypto/jwx.ValidateAlgorithmForKey).
 	if strings.HasPrefix(kind, "ec") && tk.Alg != c04NaturalAlg(kind) {
-		note("ec-curve-hash-pairing")
+		return c04Invalid, "alg-key-mismatch:" + kind + "/" + tk.Alg
 	}
 	// "The kid field must contain either the JWK SHA-256 Thumbprint or the SSH SHA-256 fingerprint of the signing key"
 	if tk.Kid != "ssh" && tk.Kid != "jwk" && tk.Kid != "of:"+tk.Signer {
@@ -704,7 +754,10 @@ const c04SampleUUID = "6f1b9c1e-58a4-4f5e-9a64-0d6a3c1f2b7e"
 
 // c04ValidTok draws a token that satisfies every documented requirement (with benign variation).
 func c04ValidTok(t *rapid.T) c04Tok {
-	signer := c04Pick(t, "signer", c04ListedNames)
+	return c04ValidTokFor(t, c04Pick(t, "signer", c04ListedNames))
+}
+
+func c04ValidTokFor(t *rapid.T, signer string) c04Tok {
 	kind := c04KindOf[signer]
 	alg := c04NaturalAlg(kind)
 	if kind == "rsa" {
@@ -1062,6 +1115,50 @@ func c04TimeCombo(t *rapid.T, tk *c04Tok) []string {
 	return []string{"time-combo:" + family, "time-combo:exp=" + ei + "/" + exp.K, "time-combo:nbf=" + ni + "/" + nbf.K, "time-combo:iat=" + ii}
 }
 
+var c04AllAlgs = []string{"ES256", "ES384", "ES512", "EdDSA", "RS256", "RS384", "RS512", "PS256", "PS384", "PS512", "HS256", "HS384", "HS512", "none"}
+
+func c04FamilyAlgs(kind string) []string {
+	switch {
+	case strings.HasPrefix(kind, "ec"):
+		return []string{"ES256", "ES384", "ES512"}
+	case kind == "rsa":
+		return []string{"RS256", "RS384", "RS512", "PS256", "PS384", "PS512"}
+	}
+	return []string{"EdDSA"}
+}
+
+// c04AlgFit draws "algorithm / key (mis)match, signed accordingly": every authorised key x every algorithm, with the signature a
+// verifier that does not enforce the fit would verify (same key family: the key's primitive with the hash the alg names, r||s in
+// either width), an HMAC keyed with the public key for HS*, nothing for none, the key's own primitive otherwise.
+func c04AlgFit(t *rapid.T) (c04Tok, []string) {
+	signer := c04Weighted(t, "fit-signer", "ec256", 3, "ec384", 3, "ec521", 3, "rsa", 2, "rsa2049", 1, "ed", 1, "ed2", 1)
+	kind := c04KindOf[signer]
+	tk := c04ValidTokFor(t, signer)
+	algs := c04AllAlgs
+	if rapid.IntRange(0, 2).Draw(t, "fit-samefamily") > 0 {
+		algs = c04FamilyAlgs(kind) // where a lax verifier would say yes
+	}
+	tk.Alg, tk.SignAlg, tk.Sig = c04Pick(t, "fit-alg", algs), "", "family"
+	switch {
+	case strings.HasPrefix(tk.Alg, "HS"):
+		tk.Sig = "hmac-pub"
+	case tk.Alg == "none":
+		tk.Sig = c04Pick(t, "fit-none-sig", []string{"empty", "family"})
+	}
+	lax := "no"
+	if c04Has(c04FamilyAlgs(kind), tk.Alg) && tk.Sig == "family" {
+		lax = "yes"
+		if strings.HasPrefix(kind, "ec") {
+			tk.Width = c04Pick(t, "fit-width", []string{"", "alg"})
+		}
+	}
+	keyLabel := kind
+	if kind == "rsa" {
+		keyLabel = signer // rsa (2048) | rsa2049
+	}
+	return tk, []string{"alg-fit", "alg-fit:" + keyLabel + "/" + tk.Alg + ":lax-verifier-accepts=" + lax, "alg-fit:width=" + map[string]string{"": "curve", "alg": "alg"}[tk.Width] + ":lax=" + lax}
+}
+
 var c04Garbage = []string{
 	"invalid", "", "a.b.c", "..", ".", "null", "{}", "e30.e30.e30",
 	"eyJhbGciOiJub25lIn0.e30.", // {"alg":"none"}.{}.
@@ -1072,7 +1169,10 @@ var c04Garbage = []string{
 
 // c04GenTok draws a token specification; defects is the list of defect names applied (for class counting).
 func c04GenTok(t *rapid.T) (c04Tok, []string) {
-	mode := c04Weighted(t, "tokmode", "valid", 5, "one-defect", 10, "two-defects", 2, "garbage", 2, "time-combo", 6)
+	mode := c04Weighted(t, "tokmode", "valid", 5, "one-defect", 10, "two-defects", 2, "garbage", 2, "time-combo", 6, "alg-fit", 6)
+	if mode == "alg-fit" {
+		return c04AlgFit(t)
+	}
 	if mode == "time-combo" {
 		tk := c04ValidTok(t)
 		return tk, c04TimeCombo(t, &tk)
